@@ -120,7 +120,7 @@ def mon_phase(result, pre, *a, **k):
     if coincide:
         count('C17:midpoint_coincides_with_extremum', coincide)
     tset = set(troughs)
-    for i in range(first, last):
+    for i in (first + np.flatnonzero(np.diff(inside) < -TOL)).tolist():
         if pha[i + 1] < pha[i] - TOL:
             if (i + 1) in tset or i in tset:
                 continue                 # the +pi -> -pi wrap at a trough
@@ -286,6 +286,26 @@ def run(sh):
                      sample={'family': kind, 'n': len(sig), 'first_extrema': fe, 'boundary': boundary, 'midpoints': mode,
                              'peaks': [int(v) for v in p[:3]], 'troughs': [int(v) for v in t[:3]],
                              'last_extrema': [int(p[-1]), int(t[-1])]})
+    if sh.shard == 0:
+        # one very long recording (hours at 1 kHz: more than 2**24 samples) with its cyclepoints near the end: sample indices beyond
+        # the exact range of single-precision numbers
+        n = 2 ** 24 + int(rng.integers(60000, 120000))
+        pos = n - 100000 + np.cumsum(rng.integers(3, 330, size=600))
+        pos = pos[pos < n - 2]
+        p, t = pos[0::2], pos[1::2]
+        m = min(len(p), len(t))
+        p, t = p[:m], t[:m]
+        mode = ['none', 'both'][int(rng.integers(0, 2))]
+        r = d = None
+        if mode == 'both':
+            # midpoints strictly between the extrema they separate (rise: trough -> peak, decay: peak -> trough)
+            d = np.array([(a + b) // 2 for a, b in zip(p, t) if b - a >= 2])
+            r = np.array([(a + b) // 2 for a, b in zip(t[:-1], p[1:]) if b - a >= 2])
+        before = attach.COUNTS['C17:outside_quantifier']
+        call(sh, n, p, t, r, d, 'long_recording')
+        inq = attach.COUNTS['C17:outside_quantifier'] == before
+        sh.note('long_recording:%s' % ('in_quantifier' if inq else 'outside_quantifier'))
+        sh.case_done(None, inq, key='long%d' % sh.shard, sample={'n': n, 'midpoints': mode, 'peaks': [int(v) for v in p[:3]], 'last': int(t[-1])})
     for k, v in attach.COUNTS.items():
         if k.startswith('C17:'):
             sh.classes[k[4:]] = v
